@@ -480,7 +480,10 @@ func (p *Plugin) degradeCalculate(node *corev1.Node, message string) []framework
 
 func (p *Plugin) prepareForNodeResourceTopology(strategy *configuration.ColocationStrategy, node *corev1.Node,
 	nr *framework.NodeResource) error {
-	if len(nr.ZoneResources) <= 0 {
+	// When the batch resources are reset (e.g. degraded by an expired NodeMetric), no zone resource is calculated,
+	// but the zone resources already published on the NRT must be withdrawn as well as the node-level ones.
+	needReset := nr.Resets[extension.BatchCPU] || nr.Resets[extension.BatchMemory]
+	if len(nr.ZoneResources) <= 0 && !needReset {
 		klog.V(6).Infof("skip prepare batch resources for NRT, Zone resources is not calculated, node %s", node.Name)
 		return nil
 	}
